@@ -101,6 +101,8 @@ def c08(tier):
                     ck.nontrivial.add((rec["state"], rec["depth"], tr, tuple(b)))
     ck.sample({"stored": [defs["rw"]["U"][i - 1] for i in STATES[3]], "queries": [q for q, _ in QUERIES], "batch": batches[len(batches) // 2]})
     ck.extra["batches"] = len(batches)
+    import p_reconf
+    p_reconf.reconf(ck, binary, tier, "C08")
     ck.rule = ("8 tuples (valid with subject id / subject set, unknown namespace in the tuple and in the subject set, no subject) x 8 stored states x max-depth "
                "values through REST GET/POST (mirror and openapi), gRPC Check (both field styles), and every batch composition up to length %d (plus the size "
                "limit -1/0/+1) through the engine, REST and gRPC; expected replies are the Api.tla mapping applied to the engine's own decision; "
